@@ -12,6 +12,7 @@ import (
 	"verifharness/ka"
 	"verifharness/kms"
 	"verifharness/meas"
+	"verifharness/pars"
 	"verifharness/pl"
 	"verifharness/rp"
 	"verifharness/vk"
@@ -36,6 +37,7 @@ var checks = map[string]func(*vk.Run){
 	"C18": abiref.RunC18,
 	"C04": meas.RunC04,
 	"C05": meas.RunC05,
+	"C08": pars.RunC08,
 }
 
 func main() {
@@ -44,6 +46,10 @@ func main() {
 		os.Exit(2)
 	}
 	id := os.Args[1]
+	if id == "child" && len(os.Args) > 2 {
+		vk.ChildMain(os.Args[2])
+		return
+	}
 	if id == "C17race" {
 		rp.PolicyRace()
 		return
